@@ -134,18 +134,18 @@ Definition OBJECT_OP_UNWRAP : N := 6.
 (* C06 / C13: the unwrapped secret key's value is stored as the output of Token::encrypt whenever the new object is private;
    C08 / C13: an unwrapped key is not CKA_LOCAL, was not always sensitive, not never extractable *)
 Theorem unwrapped_key_attributes (e : C_UnwrapKey.env) :
-  (forall v, In (CKA_VALUE, v) (snd (C_UnwrapKey.app e)) -> C_UnwrapKey.hv1_isPrivate e <> 0 -> exists x, v = C_UnwrapKey.token_encrypt_out_value e x) /\
+  (forall v, In (CKA_VALUE, v) (snd (C_UnwrapKey.app e)) -> C_UnwrapKey.extractObjectInformation_gives_isPrivate e <> 0 -> exists x, v = C_UnwrapKey.token_encrypt_out_value e x) /\
   (forall v, In (CKA_LOCAL, v) (snd (C_UnwrapKey.app e)) -> v = 0) /\
   (forall v, In (CKA_ALWAYS_SENSITIVE, v) (snd (C_UnwrapKey.app e)) -> v = 0) /\
   (forall v, In (CKA_NEVER_EXTRACTABLE, v) (snd (C_UnwrapKey.app e)) -> v = 0) /\
-  (fst (C_UnwrapKey.app e) = 0 -> (C_UnwrapKey.hv1_objClass e = CKO_SECRET_KEY -> exists v, In (CKA_VALUE, v) (snd (C_UnwrapKey.app e))) /\
+  (fst (C_UnwrapKey.app e) = 0 -> (C_UnwrapKey.extractObjectInformation_gives_objClass e = CKO_SECRET_KEY -> exists v, In (CKA_VALUE, v) (snd (C_UnwrapKey.app e))) /\
      (exists v, In (CKA_LOCAL, v) (snd (C_UnwrapKey.app e))) /\ (exists v, In (CKA_ALWAYS_SENSITIVE, v) (snd (C_UnwrapKey.app e))) /\
      (exists v, In (CKA_NEVER_EXTRACTABLE, v) (snd (C_UnwrapKey.app e)))).
 Proof.
   pose proof (C_UnwrapKey_ok e) as K.
   split; [| split; [exact (kg_local _ _ _ _ _ _ _ _ _ _ K) | split; [exact (kg_asens _ _ _ _ _ _ _ _ _ _ K) | split; [exact (kg_nextr _ _ _ _ _ _ _ _ _ _ K) | exact (kg_ok_stored _ _ _ _ _ _ _ _ _ _ K)]]]].
   intros v Hin Hp. pose proof (kg_value _ _ _ _ _ _ _ _ _ _ K v Hin) as Hv. cbv beta in Hv.
-  destruct (C_UnwrapKey.hv1_isPrivate e =? 0) eqn:E; [apply N.eqb_eq in E; contradiction | exact Hv].
+  destruct (C_UnwrapKey.extractObjectInformation_gives_isPrivate e =? 0) eqn:E; [apply N.eqb_eq in E; contradiction | exact Hv].
 Qed.
 
 (* C09 / C11: failure after CreateObject undoes exactly the object it created, success commits and destroys nothing *)
